@@ -561,8 +561,11 @@ def rule_bound(rep, F, cddl, aud):
                 ok = False
                 if lim is not None:
                     qcalls = {x[5:].split("@")[0] for x in q if x.startswith("call:")}
-                    if not any(c_.endswith("::len") for c_ in qcalls) or any(c_.endswith("::count") or "Chars" in c_ for c_ in qcalls):
-                        why = "the bounded quantity is not the byte length (`len()`) of the value: %s" % sorted(H.short(c_) for c_ in qcalls)[:4]
+                    if any("::chars" in c_ or "Chars" in c_ or "char_indices" in c_ for c_ in qcalls):
+                        why = "the bounded quantity counts characters, not bytes (the CDDL `.size` of a text string is its UTF-8 length): %s" % sorted(H.short(c_) for c_ in qcalls)[:4]
+                    elif not any(c_.endswith("::len") for c_ in qcalls):
+                        rep.lost("%s bounds a quantity that is neither len() nor a character count (%s): re-anchor BOUND" % (k, sorted(H.short(c_) for c_ in qcalls)[:4]))
+                        ok = True
                     elif lim <= bound:
                         ok = True  # a stricter API bound still emits conforming bytes
                     else:
